@@ -34,3 +34,81 @@ Definition step_word (f : flags) (w : word) : flags :=
           (f_ok f && ok1 && ok2 && ok3).
 Definition scan_line (f : flags) (l : line) : flags := fold_left step_word l f.
 Definition scan_lines (f : flags) (ls : list line) : flags := fold_left scan_line ls f.
+
+(* ---- modal machine state (C07): what a controller derives from the lines so far ---- *)
+Fixpoint wget (k : string) (l : line) : option Q :=
+  match l with
+  | [] => None
+  | w :: l' => if String.eqb (fst w) k then Some (snd w) else wget k l'
+  end.
+
+Definition isq (n : Z) (o : option Q) : bool :=
+  match o with Some q => Qeq_bool q (inject_Z n) | None => false end.
+Definition is_probe_q (o : option Q) : bool :=
+  match o with Some q => negb (Qle_bool q (38 # 1)) && negb (Qle_bool (39 # 1) q) | None => false end.
+Definition keep (new old : option Q) : option Q := match new with Some _ => new | None => old end.
+
+Record mach := mkmach {
+  m_tool : bool; m_start : Z; m_S : option Q; m_cool : Z; m_T : option Q; m_F : option Q;
+  m_rel : bool; m_em : option Z; m_fm : option Z; m_lu : option Z; m_pl : option Z;
+  m_bed : option Q; m_hot : option Q; m_cha : option Q }.
+
+Definition mach0 := mkmach false 0 None 0 None None false None None None None None None None.
+
+(* one line: its first G word and first M word decide what it does (the builder emits one
+   command per line); F is modal on motion and bare lines, S on motion, bare and tool-start lines *)
+Definition interp_line (m : mach) (l : line) : mach :=
+  let g := wget "G" l in
+  let mm := wget "M" l in
+  let motion := isq 0 g || isq 1 g || is_probe_q g in
+  let bare := match g, mm with None, None => true | _, _ => false end in
+  let starts := isq 3 mm || isq 4 mm in
+  let temp := keep (wget "S" l) (wget "R" l) in
+  mkmach
+    (if starts then true else if isq 5 mm then false else m_tool m)
+    (if isq 3 mm then 3 else if isq 4 mm then 4 else if isq 5 mm then 0 else m_start m)
+    (if motion || bare || starts then keep (wget "S" l) (m_S m) else m_S m)
+    (if isq 7 mm then 7 else if isq 8 mm then 8 else if isq 9 mm then 0 else m_cool m)
+    (keep (wget "T" l) (m_T m))
+    (if motion || bare then keep (wget "F" l) (m_F m) else m_F m)
+    (if isq 90 g then false else if isq 91 g then true else m_rel m)
+    (if isq 82 mm then Some 82 else if isq 83 mm then Some 83 else m_em m)%Z
+    (if isq 93 g then Some 93 else if isq 94 g then Some 94 else if isq 95 g then Some 95 else m_fm m)%Z
+    (if isq 20 g then Some 20 else if isq 21 g then Some 21 else m_lu m)%Z
+    (if isq 17 g then Some 17 else if isq 18 g then Some 18 else if isq 19 g then Some 19 else m_pl m)%Z
+    (if isq 140 mm || isq 190 mm then keep temp (m_bed m) else m_bed m)
+    (if isq 104 mm || isq 109 mm then keep temp (m_hot m) else m_hot m)
+    (if isq 141 mm || isq 191 mm then keep temp (m_cha m) else m_cha m).
+
+Definition interp_lines (m : mach) (ls : list line) : mach := fold_left interp_line ls m.
+
+(* ---- position machine (C01): G0/G1/G90/G91/G92/G28/G38.x ---- *)
+(* per axis: unknown, or (machine coordinate, number of rounded words it is the sum of) *)
+Definition axis_st := option (Q * nat).
+Record pmach := mkpm { p_rel : bool; p_x : axis_st; p_y : axis_st; p_z : axis_st }.
+Definition pmach0 := mkpm false None None None.
+
+Definition upd_abs (w : option Q) (c : axis_st) : axis_st :=
+  match w with Some v => Some (v, 1%nat) | None => c end.
+Definition upd_rel (w : option Q) (c : axis_st) : axis_st :=
+  match w, c with Some v, Some (q, n) => Some (q + v, S n)%Q | _, _ => c end.
+Definition upd_mask (w : option Q) (c : axis_st) : axis_st :=
+  match w with Some _ => None | None => c end.
+
+Definition pinterp_line (p : pmach) (l : line) : pmach :=
+  let g := wget "G" l in
+  let x := wget "X" l in let y := wget "Y" l in let z := wget "Z" l in
+  if isq 90 g then mkpm false (p_x p) (p_y p) (p_z p)
+  else if isq 91 g then mkpm true (p_x p) (p_y p) (p_z p)
+  else if isq 0 g || isq 1 g then
+    (if p_rel p then mkpm true (upd_rel x (p_x p)) (upd_rel y (p_y p)) (upd_rel z (p_z p))
+     else mkpm false (upd_abs x (p_x p)) (upd_abs y (p_y p)) (upd_abs z (p_z p)))
+  else if isq 92 g then mkpm (p_rel p) (upd_abs x (p_x p)) (upd_abs y (p_y p)) (upd_abs z (p_z p))
+  else if isq 28 g then
+    (match x, y, z with
+     | None, None, None => mkpm (p_rel p) None None None
+     | _, _, _ => mkpm (p_rel p) (upd_mask x (p_x p)) (upd_mask y (p_y p)) (upd_mask z (p_z p))
+     end)
+  else if is_probe_q g then mkpm (p_rel p) (upd_mask x (p_x p)) (upd_mask y (p_y p)) (upd_mask z (p_z p))
+  else p.
+Definition pinterp_lines (p : pmach) (ls : list line) : pmach := fold_left pinterp_line ls p.
